@@ -216,6 +216,24 @@ func runEnc(r *rand.Rand, o *hout.Out) {
 			o.Nontrivial("C17", string(w))
 		}
 		o.Sample("C01", strings.ReplaceAll(string(w), "\x01", "|"))
+		// the same object serialized again after its population changed (a resend, a re-used message object): the frame
+		// handed out before must stay what it was (it may still be queued for the wire), and the new one must be framed
+		if i%3 == 0 {
+			held := append([]byte{}, w...)
+			if nmut := gen.MutateMsg(r, c.msg.Items(), c.shadow, &gen.Opts{Hints: c.tags, AllowEmpty: false}, 0.5); nmut > 0 {
+				d2 := c.shadow.Dump()
+				w2, res2 := safeToBytes(c.msg)
+				if res2 == "ok" {
+					o.Emit("corr", "C01", "enc "+d2, "ok "+wire.X(w2))
+					o.Emit("spec", "C01", "c01 "+tagsOp(s)+" "+wire.X([]byte(s.MtTag))+" "+wire.X(w2), "pass")
+					o.Emit("spec", "C01", "c01 "+tagsOp(s)+" "+wire.X([]byte(s.MtTag))+" "+wire.X(w), "pass")
+					if !bytes.Equal(w, held) {
+						o.Fail("C01", "earlier-frame-overwritten-by-later-serialization", fmt.Sprintf("first ToBytes gave %q; after changing the population and serializing again that slice reads %q (second frame %q)", held, w, w2), "enc "+dump, "enc "+d2)
+					}
+					o.Count("C01.serialized-twice")
+				}
+			}
+		}
 	}
 }
 
